@@ -105,9 +105,14 @@ func (s *sim) proofTx(e *evSet, variant string, reqIdx int64) txReq {
 			mp.HashRanges = mp.HashRanges[:len(mp.HashRanges)-1]
 		}
 	case "mutleaf": // changes the signed relay -> client signature no longer verifies (ValidateBasic)
-		rp := leaf.(pc.RelayProof)
-		rp.Entropy += 1000000
-		leaf = rp
+		switch l := leaf.(type) {
+		case pc.RelayProof:
+			l.Entropy += 1000000
+			leaf = l
+		case pc.ChallengeProofInvalidData:
+			l.MinorityResponse.Proof.Entropy += 1000000
+			leaf = l
+		}
 	case "wronget":
 		if et == pc.RelayEvidence {
 			et = pc.ChallengeEvidence
@@ -131,9 +136,14 @@ func (s *sim) proofTx(e *evSet, variant string, reqIdx int64) txReq {
 		}
 	}
 	key := s.claimKeyStr(leaf.GetSigner(), leaf.SessionHeader(), et)
-	return txReq{bytes: bz, kind: "proof-" + variant,
+	leafKind, kindPfx := "relay", "proof-"
+	if e.chal {
+		leafKind, kindPfx = "chal", "cproof-"
+	}
+	e.attempts++
+	return txReq{bytes: bz, kind: kindPfx + variant,
 		pre: func(ctx sdk.Context) string {
-			return fmt.Sprintf("proof %s leaf=relay tidx=%d signer=%s | %s", key, mp.TargetIndex, s.name(signer.Addr.String()), s.proofOracle(ctx, m, dup, anteOK))
+			return fmt.Sprintf("proof %s leaf=%s tidx=%d signer=%s | %s", key, leafKind, mp.TargetIndex, s.name(signer.Addr.String()), s.proofOracle(ctx, m, dup, anteOK))
 		},
 		post: func(code uint32, _ string) {
 			if code == 0 {
@@ -206,7 +216,19 @@ func (s *sim) newEvidence(id int, H int64) *evSet {
 			nLeaves = []int{5, 6}[r.Intn(2)]
 		}
 	}
-	e := s.mkEvidence(id, node, app, chainID, S, et, nLeaves, r.Chance(1, 9))
+	var e *evSet
+	if r.Chance(1, 6) {
+		// challenge proofs as leaves, filed under either evidence type; 100+ leaves earn the reporter a (1%) reward
+		if r.Chance(1, 3) {
+			nLeaves = []int{100, 130}[r.Intn(2)]
+		}
+		if r.Chance(2, 3) {
+			et = pc.ChallengeEvidence
+		}
+		e = s.mkChallengeEvidence(id, node, app, chainID, S, et, nLeaves)
+	} else {
+		e = s.mkEvidence(id, node, app, chainID, S, et, nLeaves, r.Chance(1, 9))
+	}
 	if r.Chance(1, 10) { // declare more relays than the tree holds
 		e.total += int64(1 + r.Intn(3))
 	}
@@ -301,7 +323,7 @@ func (s *sim) history(blocks int) {
 				txs = append(txs, s.proofTx(e, "ok", s.requiredIndex(ctx, e, e.total))) // never claimed
 				e.gone = true
 			}
-			if H > e.S+(s.W+s.E+3)*s.B {
+			if H > e.S+(s.W+s.E+3)*s.B || e.attempts >= 4+e.paid {
 				e.gone = true
 			}
 		}
